@@ -155,6 +155,30 @@ func runC06(ctx *core.Ctx) {
 	}, ctx.N(4000, 60000), ctx.N(150, 400), c06Judge)
 	piecesWorkload(ctx, ctx.N(4, 5), []string{"comments-spaces", "ugc"}, c06Judge)
 	piecesWorkload(ctx, ctx.N(3, 4), []string{"strict", "pattern-everything", "foreign"}, c06Judge)
+	// giant tokens: one run of text / one attribute value / one comment of 64 KiB .. 6 MiB (buffer limits)
+	sizes := []int{65536, 70001, 1 << 20, 4<<20 + 1, 6 << 20, 4 << 20, 2<<20 + 7, 131073}
+	ctx.Run("giant-tokens", len(sizes)*3, func(cs *core.Case) {
+		n := sizes[cs.Index/3]
+		var env *Env
+		switch cs.Index % 3 {
+		case 0:
+			env = NewEnv([]spec.Op{{K: spec.KUGC}})
+		case 1:
+			env = NewEnv([]spec.Op{{K: spec.KNew}, {K: spec.KAllowElements, Names: []string{"p", "b"}}, {K: spec.KAllowAttrs, Attrs: []string{"title"}, Scope: "global"}, {K: spec.KSwitch, Names: []string{spec.SwAddSpaces}, B: true}})
+		default:
+			env = NewEnv([]spec.Op{{K: spec.KStrict}})
+		}
+		lc := core.LocalCounts{}
+		for k, in := range []string{"<p>lead</p>" + strings.Repeat("x", n) + "<p>tail</p>", "<p title=\"" + strings.Repeat("t", n) + "\">x</p>tail", "<b>a</b><!--" + strings.Repeat("c", n) + "-->after<i>z</i>", "<p>" + strings.Repeat("&amp;<b>y</b>", n/13) + "</p>"} {
+			ob := observe(env, in, k)
+			cs.Eval()
+			lc["giant_token_inputs"]++
+			c06Judge(cs, ob, lc)
+			cs.Nontrivial(core.Hash("giant", fmt.Sprint(cs.Index, k)))
+		}
+		cs.Flush(lc)
+	})
+	ctx.Floor("giant_token_inputs", 90)
 	ctx.MinNontrivial(int64(ctx.N(5000, 100000)))
 	ctx.Floor("text_equalities_checked", 20000)
 	ctx.Floor("with_space_insertion", 2000)
